@@ -602,7 +602,8 @@ def c19_run(rng):
         elif kind == "raw":
             seq = [{"op": "connect", "c": lab, "w": 80}]
             for _ in range(rng.choice([0, 1, 2, 3])):
-                seq.append({"op": "line", "c": lab, "text": rng.choice(["num-running", "is-locked", "pool-size", "-h", "bogus", "lock", "unlock"])})
+                busy = ["start 2", "stop 1"] if cfg["cls"] == "S" else ["apply tpsim.ctlworkers.work -n 2", "map tpsim.ctlworkers.work [1,2,3] -n 2", "cancel-all"]
+                seq.append({"op": "line", "c": lab, "text": rng.choice(["num-running", "is-locked", "pool-size", "-h", "bogus", "lock", "unlock"] + busy)})
             how = rng.choice(["close", "close", "eof", "abort", "vanish", None])
             if how:
                 seq.append({"op": "close", "c": lab, "how": how})
